@@ -356,6 +356,7 @@ pub fn cmd_worker(w: WorkerArgs) -> i32 {
     let mut seen_fp: BTreeSet<String> = BTreeSet::new();
     let mut other_prop = 0u64;
     let mut samples: Vec<J> = Vec::new();
+    let mut digest: u64 = 0;
     let mut run = w.start;
     while run < w.end {
         if w.max_s > 0 && t0.elapsed().as_secs() >= w.max_s {
@@ -368,6 +369,7 @@ pub fn cmd_worker(w: WorkerArgs) -> i32 {
         let rs = run_seed(w.seed, scen.name(), run);
         let o = run_one(scen, Tape::record(rs), false);
         runs += 1;
+        digest = digest.wrapping_add(o.hash.wrapping_mul(2 * run + 1));
         seam_events += o.seam_events;
         events += o.events as u64;
         for (k, v) in &o.counters {
@@ -460,6 +462,7 @@ pub fn cmd_worker(w: WorkerArgs) -> i32 {
     let cellj = J::Obj(cells.iter().map(|(k, (n, s))| (k.clone(), J::obj().set("runs", J::i(*n)).set("sigs", J::Arr(s.iter().map(|&x| J::Int(x as i128)).collect())))).collect());
     let j = J::obj()
         .set("runs", J::i(runs))
+        .set("digest", J::i(digest))
         .set("nontrivial", J::i(nontrivial))
         .set("discarded", J::i(discarded))
         .set("hashes_capped", J::Bool(hashes_capped))
@@ -489,6 +492,7 @@ pub fn cmd_worker(w: WorkerArgs) -> i32 {
 // controller
 
 struct PartResult {
+    digest: u64,
     scenario: String,
     xen: bool,
     runs: u64,
@@ -514,6 +518,7 @@ struct PartResult {
 fn run_part(exe: &Path, scen_name: &str, xen: bool, prop: &str, seed: u64, total: u64, workers: u64, max_s: u64, tmp: &Path) -> PartResult {
     let t0 = Instant::now();
     let mut pr = PartResult {
+        digest: 0,
         scenario: scen_name.to_string(),
         xen,
         runs: 0,
@@ -591,6 +596,7 @@ fn run_part(exe: &Path, scen_name: &str, xen: bool, prop: &str, seed: u64, total
             };
             let gi = |k: &str| j.get(k).and_then(|v| v.as_i()).unwrap_or(0) as u64;
             pr.runs += gi("runs");
+            pr.digest = pr.digest.wrapping_add(gi("digest"));
             pr.nontrivial += gi("nontrivial");
             pr.discarded += gi("discarded");
             pr.seam_events += gi("seam_events");
@@ -815,6 +821,7 @@ pub fn cmd_check(prop: &str, tier: &str, xen_bin: Option<&str>) -> i32 {
                     .set("scenario", J::s(&p.scenario))
                     .set("build", J::s(if p.xen { "xen" } else { "unix" }))
                     .set("runs", J::i(p.runs))
+                    .set("runs_digest", J::s(format!("{:016x}", p.digest)))
                     .set("nontrivial_runs", J::i(p.nontrivial))
                     .set("discarded_runs", J::i(p.discarded))
                     .set("seam_events", J::i(p.seam_events))
